@@ -102,8 +102,8 @@ func checkC08(c *Ctx) {
 	// inputs on both sides of the 8 KiB threshold whose LAST line is the bad one — among them
 	// lines that leave a scope open or close one too many yet end in } or ] (stage 1's end check
 	// passes; only stage 2's bookkeeping at the end of the input can reject them)
-	for _, bad := range []string{`{"a":{"b":1}`, `[[1,2]`, `{"a":[{"b":null}]`, `[1,2]]`, `{"a":1}}`, `[{"a":1}`, `{"a":[1,2}`, `{"a":1`, `[1,2`, `{"a":tru}`} {
-		for _, size := range []int{2000, 8100, 8300, 9000, 20000, 70000} {
+	for _, bad := range []string{`{"a":{"b":1}`, `[[1,2]`, `{"a":[{"b":null}]`, `[1,2]]`, `{"a":1}}`, `[{"a":1}`, `{"a":[1,2}`, `{"a":1`, `[1,2`, `{"a":tru}`, `[falsey]`, `{"a":false1}`, `[truex]`, `{"a":nullx}`, `[false.]`, `[1,falsE]`} {
+		for _, size := range []int{0, 2000, 8100, 8300, 9000, 20000, 70000} {
 			for _, tail := range []string{"", "\n", "\r\n", "\n\n"} {
 				var sb strings.Builder
 				for sb.Len() < size {
